@@ -5,7 +5,7 @@
 // Include after the extracted `enum ImageHeader` / `enum ImageHeaderV1`, lemmas/imghdr_wire.rs,
 // shims/codec_reader.rs and shims/codec_take.rs.
 // ---------------------------------------------------------------------------------
-//@trusted T4 ImageHeader::{to_writer, write_len}: to_writer = Ok appends imghdr_wire(h) (RFC 9580 5.12.1), write_len() is its length (contracts of U66h).  NOTE: for the two version 1 shapes this is proved in U66h; for ImageHeader::Unknown (a header version other than 1) the unchanged code does NOT meet it (U66h findings imghdr_unknown_version_length_field / imghdr_unknown_version_write_len), so every statement derived from it holds for the real code only on values without such a header
+//@trusted T4 ImageHeader::{to_writer, write_len}: to_writer = Ok appends imghdr_wire(h) (RFC 9580 5.12.1), write_len() is its length (contracts of U66h).  Proved in U66h for all three shapes (for ImageHeader::Unknown, a header version other than 1, since /repo commit 80a2524; before it the clauses imghdr_unknown_version_length_field / imghdr_unknown_version_write_len failed there)
 //@trusted T4 ImageHeader::try_from_reader at B := Take<B0> taken by reference (the call `ImageHeader::try_from_reader(&mut rest)`): the contract imghdr_parse_post proved in U66h for every B, and in addition the lock step take_rel of the Take with its inner reader: the function is generic in B and reaches the Take only through Take::{read, fill_buf, consume} (take_rel proved for them in U60s; reflexive, transitive)
 impl ImageHeader {
     #[verifier::external_body]
